@@ -25,12 +25,15 @@ MANIFEST = {
                      "give the same answers for every lookup, gap query and batch query (GetExact, ScanSelectsStream, GapIsolated, BatchIsolated) "
                      "when scan prefixes are terminated, and refutes it for an unterminated prefix (negative config). TLC-generated and seeded "
                      "random histories are replayed on a real Badger store through db.Database, publicrpc.PublicrpcServer and "
-                     "nodePrivilegedService.FindMissingMessages; TLC validates every call's result against the specification view.",
+                     "nodePrivilegedService.FindMissingMessages; TLC validates every call's result against the specification view, including that a "
+                     "backfill call fills the store only through the processor's inbound channel (OnlyThroughProcessor; the VAAs carry one to four "
+                     "genuine signatures of a five-key set).",
                 ref="6/C12", note=NOTE, technique="TLA+ model checking (TLC) + replay of TLC behaviours and random histories on real Badger, trace validation against Store.tla"),
     "C16": dict(text="Store.tla models acknowledgement, kill (acknowledged writes survive, unacknowledged ones may or may not) and reopen; "
                      "AckedSurvive, NeverForeignBytes, ReopenAlways, AckedReadBack are model-checked. A child process stores a seeded stream of real "
                      "VAAs through db.StoreSignedVAA and is SIGKILLed at seeded instants over many cycles on the same Badger directory; the parent "
-                     "reopens and reads every identifier; TLC validates the Store/Ack/Kill/Reopen/Get history.",
+                     "reopens and reads every identifier; TLC validates the Store/Ack/Kill/Reopen/Get history. In every third cycle a second Open of "
+                     "the directory is attempted while the child is storing (refused on the unchanged tree; if granted, the usual oracle decides).",
                 ref="6/C16", note=NOTE, technique="TLA+ model checking (TLC) + trace validation of real SIGKILL/reopen cycles against Store.tla"),
 }
 
